@@ -566,7 +566,8 @@ def check_C10(tier):
                        "strategies; (c) all C09-style pairs; " + KNOWN_NOTE.format(b=2) + "; a schedule in which no "
                        "thread is runnable while some are unfinished is a deadlock; after all threads finished every "
                        "lock (collection, class, buffer) must be free; (d) filename re-pointing with a second object "
-                       "bound to the old file; (e) cross-collection programs a.update(b) || b.update(a) on two files")
+                       "bound to the old file; (e) cross-collection programs a.update(b) || b.update(a) on two files (their lock "
+                       "skeleton is model-checked in CrossLock.tla)")
     run.assumptions += ["JSON backend", "I/O faults are injected as an unparsable file (load) - save-time faults are "
                         "covered by the sequential check below"]
     progs = []
@@ -619,11 +620,32 @@ def check_C10(tier):
     judge(run, "C10", mres, ("deadlock", "leak"))
     run.cov["programs"] = len(progs)
     sequential_lock_checks(run)
+    cross_lock_model(run)
     for r in results[:4]:
         if r["distinct"]:
             run.sample({"program": r["prog"]["name"], "schedule": r["distinct"][-1].get("schedule", [])[:40],
                         "deadlock": r["distinct"][-1].get("deadlock"), "leaks": r["distinct"][-1].get("leaks")})
     return run.finish()
+
+
+def cross_lock_model(run):
+    """CrossLock.tla: the lock skeleton of a write of one collection that reads another (programs (e) above are its
+    executions on the real classes).  Intended design: deadlock-free buffered and unbuffered; with the deviation of the
+    code before fix 985c89e (the read's merge takes the read collection's lock) the unbuffered instance must deadlock
+    (witness) and the buffered one must not (the buffer lock is a gate)."""
+    for dev, buffered, want_deadlock in (("FALSE", "FALSE", False), ("FALSE", "TRUE", False), ("TRUE", "FALSE", True), ("TRUE", "TRUE", False)):
+        cfg = tlc.cfg_text(spec="Spec", constants={"Dev_MergeLocks": dev, "Buffered": buffered},
+                           invariants=["C10_NoLockLeak", "LockSanity"], check_deadlock=True)
+        res = tlc.run("CrossLock", cfg, name=f"crosslock-{dev}-{buffered}", timeout=300)
+        got = bool(res.deadlock)
+        if res.errors and not got or res.violated:
+            run.machinery_error(f"TLC CrossLock dev={dev} buffered={buffered}: {res.violated} {res.errors[:2]} {res.tail(6)}")
+            continue
+        if got != want_deadlock:
+            run.machinery_error(f"CrossLock.tla dev={dev} buffered={buffered}: deadlock={got}, expected {want_deadlock}")
+        run.add_tlc(res, f"CrossLock.tla Dev_MergeLocks={dev} Buffered={buffered} (deadlock={got})")
+        if dev == "TRUE":
+            run.cov.setdefault("deviation_witnesses", {})[f"Dev_MergeLocks/buffered={buffered}"] = "deadlock" if got else "none"
 
 
 def sequential_lock_checks(run):
